@@ -634,3 +634,103 @@ pub fn long_game(start: &Pos, rng: &mut Rng, max_plies: usize) -> (Vec<Pos>, Vec
     }
     (ps, ms)
 }
+
+
+/// Stalemate swindles: the side to move has a king that cannot move (and, perhaps, blocked pawns)
+/// plus ONE mobile piece it can give away. Where the piece can force its own capture the game is a
+/// draw by stalemate two or three plies below the root although that side is far behind in material —
+/// the stalemate rule decides the value of an interior node with remaining depth.
+pub fn g_stalemate_swindle(rng: &mut Rng) -> Pos {
+    loop {
+        let mut p = Pos::empty();
+        let weak = rng.below(2) as u8;
+        let strong = weak ^ 1;
+        p.stm = weak;
+        let (kf, kr): (i8, i8) = if rng.chance(2, 3) {
+            (*rng.pick(&[0i8, 7]), *rng.pick(&[0i8, 7]))
+        } else {
+            match rng.below(4) {
+                0 => (rng.below(8) as i8, 0),
+                1 => (rng.below(8) as i8, 7),
+                2 => (0, rng.below(8) as i8),
+                _ => (7, rng.below(8) as i8),
+            }
+        };
+        p.sq[sq(kf, kr) as usize] = pc(weak, K);
+        let near = |p: &Pos, rng: &mut Rng, lo: i8, hi: i8| -> Option<usize> {
+            for _ in 0..40 {
+                let df = rng.range(-(hi as i64), hi as i64) as i8;
+                let dr = rng.range(-(hi as i64), hi as i64) as i8;
+                if df.abs().max(dr.abs()) < lo || !on_board(kf + df, kr + dr) {
+                    continue;
+                }
+                let s = sq(kf + df, kr + dr) as usize;
+                if p.sq[s] == 0 {
+                    return Some(s);
+                }
+            }
+            None
+        };
+        // the strong side: king plus one or two heavy pieces near the cornered king
+        let Some(s) = near(&p, rng, 2, 3) else { continue };
+        p.sq[s] = pc(strong, K);
+        for _ in 0..rng.range(1, 2) {
+            if let Some(s) = near(&p, rng, 1, 3) {
+                p.sq[s] = pc(strong, *rng.pick(&[Q, Q, R, R, B, N]));
+            }
+        }
+        // optionally a blocked pawn pair (the weak pawn cannot move)
+        if rng.chance(1, 3) {
+            let f = rng.below(8) as i8;
+            let r = rng.range(2, 5) as i8;
+            let (wr, sr) = if weak == WHITE { (r, r + 1) } else { (r + 1, r) };
+            let (a, b) = (sq(f, wr) as usize, sq(f, sr) as usize);
+            if p.sq[a] == 0 && p.sq[b] == 0 {
+                p.sq[a] = pc(weak, P);
+                p.sq[b] = pc(strong, P);
+            }
+        }
+        // without the desperado the weak side must be stalemated
+        if p.validity().is_err() || p.in_check() || !p.legal_moves().is_empty() {
+            continue;
+        }
+        // the desperado
+        let s = random_empty(&p, rng);
+        p.sq[s as usize] = pc(weak, *rng.pick(&[R, R, Q, Q, B, N]));
+        if p.validity().is_ok() && !p.legal_moves().is_empty() {
+            return p;
+        }
+    }
+}
+
+
+/// Fully blocked pawn walls with the kings behind them (nothing can ever be captured or pushed):
+/// iterative deepening runs through dozens of iterations per second there, so a time-limited go
+/// reaches the engine's maximum depth.
+pub fn g_blocked(rng: &mut Rng) -> Pos {
+    loop {
+        let mut p = Pos::empty();
+        p.stm = rng.below(2) as u8;
+        let off = rng.below(2) as i8; // files a,c,e,g or b,d,f,h
+        let wr = rng.range(2, 4) as i8; // white pawns on rank index wr, black ones right in front
+        for k in 0..4 {
+            let f = off + 2 * k;
+            p.sq[sq(f, wr) as usize] = pc(WHITE, P);
+            p.sq[sq(f, wr + 1) as usize] = pc(BLACK, P);
+        }
+        let wk = sq(rng.below(8) as i8, rng.range(0, (wr - 1) as i64) as i8);
+        let bk = sq(rng.below(8) as i8, rng.range((wr + 2) as i64, 7) as i8);
+        p.sq[wk as usize] = pc(WHITE, K);
+        p.sq[bk as usize] = pc(BLACK, K);
+        if rng.chance(1, 3) {
+            // a bishop locked behind its own wall changes nothing about the blockade
+            let s = sq(rng.below(8) as i8, 0);
+            if p.sq[s as usize] == 0 {
+                p.sq[s as usize] = pc(WHITE, B);
+            }
+        }
+        if p.validity().is_ok() && !p.legal_moves().is_empty() {
+            return p;
+        }
+    }
+}
